@@ -94,6 +94,11 @@ func (s *recStore) Del(t bep44.Target) error {
 	if s.hook != nil {
 		s.hook("del", t)
 	}
+	if s.fail != nil {
+		if err := s.fail("del"); err != nil {
+			return err
+		}
+	}
 	s.mu.Lock()
 	s.dels++
 	s.ops = append(s.ops, delMark)
